@@ -55,7 +55,61 @@ def _walk_expr(e, f):
             _walk_expr(x, f)
 
 
+def _reads(e, mode, out):
+    """(place name, mode) for every place read in e, in evaluation order"""
+    from gen_prog import SIGS
+    k = e[0]
+    if k == "pl":
+        out.append((e[1], mode))
+    elif k == "tup":
+        for x in e[1]:
+            _reads(x, "move", out)
+    elif k == "call":
+        for (m, _), a in zip(SIGS[e[1]][0], e[2]):
+            _reads(a, m if a[0] == "pl" else "move", out)
+    elif k == "proj":
+        _reads(e[1], "move", out)
+    elif k == "ifx":
+        for x in e[1:]:
+            _reads(x, "move", out)
+
+
+def _borrowed_reuse(ss, f, borrowed_aggs, loops):
+    """straight-line runs: a sub-place of a borrowed aggregate is consumed and an enclosing place is read
+    later in the same run (with / without a refill of the sub-place in between)"""
+    taken = {}
+    for s in ss:
+        if s[0] in ("if", "while"):
+            taken = {}
+            continue
+        e = s[2] if s[0] == "assign" else s[1] if s[0] in ("expr", "return") else None
+        rd = []
+        if e is not None:
+            _reads(e, "move", rd)
+        for name, mode in rd:
+            root = name.split(".")[0].split("[")[0]
+            if root not in borrowed_aggs:
+                continue
+            for sub, refilled in taken.items():
+                if sub != name and (sub.startswith(name + ".") or sub.startswith(name + "[")):
+                    kind = "refilled" if refilled else "not_refilled"
+                    f.add(f"borrowed_agg_sub_place_consumed_then_enclosing_{'lent' if mode == 'bor' else 'moved'}_{kind}")
+                    if loops:
+                        f.add("borrowed_agg_consume_then_reuse_in_loop")
+                    if name != root:
+                        f.add("borrowed_agg_enclosing_is_intermediate_field")
+            if name != root and mode != "bor":
+                taken[name] = False
+                f.add("borrowed_agg_sub_place_consumed")
+        if s[0] == "assign":
+            for n, _ in s[1]:
+                for sub in taken:
+                    if sub == n or sub.startswith(n + "."):
+                        taken[sub] = True
+
+
 def _walk(ss, f, loops, depth, types):
+    _borrowed_reuse(ss, f, types.get("%borrowed_aggs", ()), loops)
     for s in ss:
         k = s[0]
         if depth >= 3:
@@ -115,9 +169,12 @@ def features(fn):
     types = {}
     for n, ty, m in fn["params"]:
         types[n] = ty
-        if ty in ("q", "t", "s", "arr"):
+        if ty in ("q", "t", "s", "w", "arr"):
             f.add("borrowed_param" if m == "bor" else "owned_param")
-            if ty in ("s", "t") and m == "bor":
+            if ty in ("s", "t", "w") and m == "bor":
                 f.add("borrowed_aggregate_param")
+            if ty == "w":
+                f.add("nested_struct_param")
+    types["%borrowed_aggs"] = {n for n, ty, m in fn["params"] if m == "bor" and ty in ("s", "t", "w")}
     _walk(fn["body"], f, 0, 0, types)
     return f
